@@ -14,6 +14,8 @@ RULE = ('case = (backend class, TAG_HASH_FILENAMES, metric string); all strings 
         'a subset is really created through database.create() in a scratch tree with decoy siblings and the tree is '
         'walked; injectivity is checked over well-formed untagged names; non-trivial = name containing a separator, dot, '
         'semicolon or tilde; distinct = distinct (backend, flag, name)')
+RULE_MORE = (' Also: names around the 255-byte component limit with single-character neighbours, encoder-output look-alikes with every count of leading underscores, shell / home expansion syntax with planted variables; every file-system call made on behalf of a name is watched through audit events, writes are refused by the library now and then.')
+RULE = RULE + RULE_MORE
 EXHAUSTIVE = {'quick': True, 'thorough': True}
 EXHAUSTIVE_OVER = 'all strings of length <= L over the 8-symbol hostile alphabet (L=5 quick, L=6 thorough)'
 ASSUMPTIONS = ['whisper and ceres are absent: stand-in modules record file-system effects only; the Whisper path is '
